@@ -177,7 +177,7 @@ func checkC14(c *run.Ctx) {
 		penv0 := copyEnv(penv) // pristine copy: penv itself is handed to many Sign calls, the way SignSteps hands one map to every step
 		repo := gen.Pick(r, []string{"git@github.com:o/r.git", "https://x/y", "", "r"})
 		kinds := []string{"EdDSA", "EdDSA", "EdDSA", "ES512", "PS512", "ES256-signer"}
-		kp := all[kinds[(i/12)%len(kinds)]][0] // independent of the residues that choose the sweeps above
+		kp := all[kinds[mix(i, 1, len(kinds))]][0]
 
 		ok := true
 		observe := func(desc string, st *pipeline.CommandStep, pe map[string]string, rp string, k *keys.Pair) []byte {
